@@ -776,6 +776,7 @@ func (x *c05ctx) ruleScannerFlags() {
 	}
 	bit, _ := constant.Int64Val(flagConst.Val())
 	premised := map[*ssa.Function]bool{}
+	callers := h4CallersIndex(c)
 	for _, fn := range x.c.RepoFunctions() {
 		p := core.FuncPkg(fn)
 		if p == nil || core.IsCLIOrSample(p) {
@@ -786,26 +787,36 @@ func (x *c05ctx) ruleScannerFlags() {
 			if o == nil || o.Pkg() == nil || o.Pkg().Path() != iosPath || !strings.HasPrefix(o.Name(), "NewScannerByDelim") {
 				continue
 			}
-			key := core.FuncKey(fn) + " " + ecFuncName(o) + " flags"
+			// the obligation belongs to the function that puts the scanner to use (a helper that only returns it hands
+			// the role to its callers); a flags argument that is a parameter is followed to the call sites
 			sig := o.Type().(*types.Signature)
-			found := false
-			for i := 0; i < sig.Params().Len(); i++ {
-				if !types.Identical(sig.Params().At(i).Type(), flagConst.Type()) || i >= len(ci.Common().Args) {
-					continue
+			for _, owner := range h4Owners(ci, callers) {
+				key := core.FuncKey(owner) + " " + ecFuncName(o) + " flags"
+				found := false
+				for i := 0; i < sig.Params().Len(); i++ {
+					if !types.Identical(sig.Params().At(i).Type(), flagConst.Type()) || i >= len(ci.Common().Args) {
+						continue
+					}
+					found = true
+					vals, ok := h4IntConsts(ci.Common().Args[i], callers)
+					var lacking *int64
+					for k := range vals {
+						if vals[k]&bit == 0 {
+							lacking = &vals[k]
+						}
+					}
+					switch {
+					case !ok:
+						c.Unknown("R05a.iii", key, core.InstrPos(ci), "scanner flags are not a compile-time constant")
+					case lacking != nil:
+						c.Bad("R05a.iii", key, core.InstrPos(ci), fmt.Sprintf("flags = %d do not contain ScannerByDelimFlagEofAsDelim (%d): the split function returns (0, nil, nil) for a final token without delimiter, so a trailing unterminated segment is dropped and Read reports io.EOF", *lacking, bit))
+					default:
+						c.OK("R05a.iii", key, core.InstrPos(ci), "flags contain EofAsDelim")
+					}
 				}
-				found = true
-				v, ok := c05IntConst(ci.Common().Args[i])
-				switch {
-				case !ok:
-					c.Unknown("R05a.iii", key, core.InstrPos(ci), "scanner flags are not a compile-time constant")
-				case v&bit == 0:
-					c.Bad("R05a.iii", key, core.InstrPos(ci), fmt.Sprintf("flags = %d do not contain ScannerByDelimFlagEofAsDelim (%d): the split function returns (0, nil, nil) for a final token without delimiter, so a trailing unterminated segment is dropped and Read reports io.EOF", v, bit))
-				default:
-					c.OK("R05a.iii", key, core.InstrPos(ci), "flags contain EofAsDelim")
+				if !found {
+					c.Unknown("R05a.iii", key, core.InstrPos(ci), "no parameter of type ScannerByDelimFlag")
 				}
-			}
-			if !found {
-				c.Unknown("R05a.iii", key, core.InstrPos(ci), "no parameter of type ScannerByDelimFlag")
 			}
 			if f := ci.Common().StaticCallee(); f != nil && !premised[f] {
 				premised[f] = true
